@@ -3,6 +3,7 @@ package main
 import (
 	"fmt"
 	"go/constant"
+	"go/token"
 	"go/types"
 	"sort"
 	"strings"
@@ -374,6 +375,15 @@ func c20R4(c *Ctx, rule string) {
 				if s, ok := strConst(x.Val); ok && fieldNames[s] {
 					gotUnq = append(gotUnq, s)
 				}
+			case *ssa.BinOp:
+				// the same set spelled as comparisons of the key (switch key { case "NumConn", … })
+				if x.Op == token.EQL {
+					for _, side := range []ssa.Value{x.X, x.Y} {
+						if s, ok := strConst(side); ok && fieldNames[s] {
+							gotUnq = append(gotUnq, s)
+						}
+					}
+				}
 			case *ssa.Call:
 				n := calleeName(&x.Call)
 				switch n {
@@ -431,6 +441,12 @@ func c20R4(c *Ctx, rule string) {
 						okSplit = true
 					}
 				}
+			}
+		}
+		// or the replacements are applied in line and the split takes the result of the last one
+		if !okSplit && len(repls) > 0 {
+			if last, isV := repls[len(repls)-1].at.(ssa.Value); isV && repls[len(repls)-1].at.Parent() == split.Parent() {
+				okSplit = valueDependsOn(arg, last, 0)
 			}
 		}
 	}
